@@ -19,6 +19,39 @@ def side_of(variant):
     return None
 
 
+
+def extra_config_rules(ctx):
+    """thorough tier: the optional features of biscuit-auth that build offline (bwk, uuid, serde-error). REACH over the public
+    functions this configuration adds, and WIRE for the BiscuitWebKey <-> BiscuitWebKeyRepr key encoding (every field of one side
+    comes from the matching field of the other, through the algorithm-string / hex helpers the default configuration checks)."""
+    import facts
+    fd = facts.load("default")
+    fx = facts.load("extra")
+    dpaths = {b["path"] for b in fd.bodies.values()}
+    new = [b for b in fx.bodies.values() if b["crate"] == "biscuit_auth" and b["path"] not in dpaths]
+    ent = [b["key"] for b in new if b["kind"] in ("Fn", "AssocFn")]
+    ctx.floor("bodies added by the bwk/uuid/serde-error features", len(new), 3)
+    reach.run(fx, ctx, ent, rule="REACH-extra")
+    wb = fx.body("<bwk::BiscuitWebKeyRepr as std::convert::From<bwk::BiscuitWebKey>>::from")
+    rb = fx.body("<bwk::BiscuitWebKey as std::convert::TryFrom<bwk::BiscuitWebKeyRepr>>::try_from")
+    wa = [s_ for _, s_ in mirq.aggregates(wb, r"bwk::BiscuitWebKeyRepr$")]
+    ra = [s_ for _, s_ in mirq.aggregates(rb, r"bwk::BiscuitWebKey$")]
+    if not (wa and ra):
+        raise CheckerError("anchor: BiscuitWebKey conversions")
+    want_w = {"algorithm": ("arg1.public_key", "algorithm_string"), "key_bytes": ("arg1.public_key", "to_bytes_hex"), "key_id": ("arg1.key_id", None), "issuer": ("arg1.issuer", None), "expires_at": ("arg1.expires_at", None)}
+    for f, (src, via) in want_w.items():
+        lv = mirq.operand_leaves(fx, wb, mirq.agg_field(wa[0], f))
+        ok = mirq.has_leaf(lv, src) and (via is None or any(via in x for x in lv)) and not any(x.startswith("arg1.") and not x.startswith(src) for x in lv)
+        ctx.check(ok, "WIRE", f"BiscuitWebKeyRepr.{f} <- {src.replace('arg1', 'key')}" + (f" through {via}" if via else ""), f"WIRE|bwk|writer|{f}", f"field depends on {sorted(lv)[:6]}", f"{wb['file']}:{wb['line']}")
+    lv = mirq.operand_leaves(fx, rb, mirq.agg_field(ra[0], "public_key"))
+    ctx.check(mirq.has_leaf(lv, "arg1.key_bytes") and mirq.has_leaf(lv, "arg1.algorithm") and any("from_bytes_hex" in x for x in lv) and any("try_from" in x for x in lv), "WIRE", "BiscuitWebKey.public_key <- from_bytes_hex(repr.key_bytes, Algorithm::try_from(repr.algorithm))", "WIRE|bwk|reader|public_key", f"field depends on {sorted(lv)[:8]}", f"{rb['file']}:{rb['line']}")
+    for f in ("key_id", "issuer", "expires_at"):
+        lv = mirq.operand_leaves(fx, rb, mirq.agg_field(ra[0], f))
+        ctx.check(set(x for x in lv if x.startswith("arg")) == {f"arg1.{f}"}, "WIRE", f"BiscuitWebKey.{f} <- repr.{f}", f"WIRE|bwk|reader|{f}", f"field depends on {sorted(lv)[:6]}", f"{rb['file']}:{rb['line']}")
+    for c in fx.calls(rb):
+        if not c.indirect and re.search(r"(Algorithm as std::convert::TryFrom<&str>>::try_from|PublicKey::from_bytes_hex)$", c.callee):
+            mirq.result_used(fx, ctx, rb, c, "USED", f"BiscuitWebKey::try_from: a failure of {c.callee.split('::')[-1]} is propagated", f"USED|bwk|{c.callee.split('::')[-1]}")
+
 def check(fb, ctx):
     ctx.explanation = (
         "REACH: no undischarged panic source reachable from any public function of crypto/{mod,ed25519,p256}.rs or "
@@ -170,5 +203,7 @@ def check(fb, ctx):
     ctx.check(names == allv, "AUTODETECT", "Algorithm::values lists every variant", "AUTODETECT|values", f"values() lists {names}, the enum has {allv}", "biscuit-auth/src/token/builder/algorithm.rs")
     # ---- PRIMITIVE (shared with C01)
     chain.primitive_rules(fb, ctx)
+    if ctx.tier == "thorough":
+        extra_config_rules(ctx)
     ctx.not_decided = ["round-trip equality of encodings (dependency behaviour)", "that a signature verifies only under the matching key (cryptographic)"]
     ctx.trusted = ["ed25519-dalek, p256, pkcs8 crates", "generic-array panics on wrong length (stated in /repo's own comments)"]
